@@ -32,3 +32,14 @@ mod mocked;
 pub(crate) use real::*;
 #[cfg(loom)]
 pub(crate) use mocked::*;
+
+// Verification build (`--cfg excsn_fibre_verif`): explicit imports shadow the
+// glob re-export of `real` above, so nothing else in the tree changes.
+#[cfg(all(excsn_fibre_verif, not(loom)))]
+mod verif;
+#[cfg(all(excsn_fibre_verif, not(loom)))]
+#[allow(unused_imports)]
+pub(crate) use verif::{
+  fence, hint, thread, Arc, AtomicBool, AtomicPtr, AtomicU8, AtomicU32, AtomicU64, AtomicUsize,
+  Mutex, Ordering, Thread, IS_LOOM,
+};
